@@ -65,6 +65,8 @@ func (c Chunking) FaultError() error {
 		return io.ErrNoProgress
 	case "path-error":
 		return &os.PathError{Op: "read", Path: "activity.fit", Err: syscall.EIO}
+	case "error-list":
+		return errList{errors.New("verif: first problem"), errors.New("verif: second problem")}
 	}
 	return ErrFault
 }
@@ -72,7 +74,13 @@ func (c Chunking) FaultError() error {
 // FaultErrKinds lists the values FaultErr can take besides "": the error
 // values real readers fail with (the identity of a reader's error must not
 // turn a failure into a success).
-var FaultErrKinds = []string{"unexpected-eof", "closed-pipe", "eintr", "wrapped-eintr", "eagain", "timeout", "deadline", "no-progress", "path-error"}
+var FaultErrKinds = []string{"unexpected-eof", "closed-pipe", "eintr", "wrapped-eintr", "eagain", "timeout", "deadline", "no-progress", "path-error", "error-list"}
+
+// errList is an error whose dynamic type cannot be compared with == (a slice,
+// like go/scanner.ErrorList): comparing two such values panics.
+type errList []error
+
+func (e errList) Error() string { return fmt.Sprintf("%d errors, first: %v", len(e), e[0]) }
 
 // timeoutError is what a network connection's Read returns on a deadline: an
 // error that calls itself temporary.
